@@ -35,7 +35,46 @@ KANI_FLAGS = ["-Z", "stubbing", "-Z", "unstable-options", "--exact"]
 # Concrete playback makes CBMC build traces (about +10 s per harness), so it is only switched on in
 # a second run of the harnesses that produced a counterexample, to obtain its concrete values.
 PLAYBACK_FLAGS = ["-Z", "concrete-playback", "--concrete-playback=print"]
-MEM_LIMIT = int(os.environ.get("VERIF_MEM_GB", "24")) * (1 << 30)
+MEM_LIMIT = int(os.environ.get("VERIF_MEM_GB", "40")) * (1 << 30)
+# Memory-aware scheduling (62 GB machine, no swap): CBMC's memory grows with the program size, for
+# which the measured time is a good proxy (measured peaks: 560 s -> 8 GB, 350 s -> 4.8 GB,
+# 300 s -> 3 GB, 100 s -> 1 GB). The estimated GB of all running chunks stay below MEM_BUDGET_GB.
+MEM_BUDGET_GB = float(os.environ.get("VERIF_MEM_BUDGET_GB", "46"))
+
+
+def est_gb(cost):
+    if cost >= 450:
+        return 9.5
+    if cost >= 320:
+        return 6.0
+    if cost >= 200:
+        return 4.0
+    if cost >= 100:
+        return 2.5
+    return 1.2
+
+
+class MemBudget:
+    def __init__(self, total):
+        self.total = total
+        self.used = 0.0
+        self.cv = threading.Condition()
+
+    def acquire(self, w):
+        w = min(w, self.total)
+        with self.cv:
+            while self.used + w > self.total + 1e-9:
+                self.cv.wait()
+            self.used += w
+        return w
+
+    def release(self, w):
+        with self.cv:
+            self.used -= w
+            self.cv.notify_all()
+
+
+MEM = MemBudget(MEM_BUDGET_GB)
 PRINT_LOCK = threading.Lock()
 
 
@@ -420,6 +459,7 @@ def run_all(hs, jobs, use_cache, logdir):
 
     def worker(item):
         cfg, ch = item
+        w = MEM.acquire(max(est_gb(float(costs.get(h.name, h.cost))) for h in ch))
         with slot_lock:
             slot = slots.pop(0)
         try:
@@ -433,6 +473,7 @@ def run_all(hs, jobs, use_cache, logdir):
             with slot_lock:
                 slots.append(slot)
                 slots.sort()
+            MEM.release(w)
 
     if work:
         with ThreadPoolExecutor(max_workers=jobs) as ex:
@@ -471,6 +512,8 @@ def playback_batch(hs, results, jobs, logdir, limit):
     slot_lock = threading.Lock()
 
     def worker2(h):
+        # building traces roughly doubles CBMC's memory
+        w = MEM.acquire(2 * est_gb(float(costs.get(h.name, h.cost))))
         with slot_lock:
             slot = slots.pop(0)
         try:
@@ -480,6 +523,7 @@ def playback_batch(hs, results, jobs, logdir, limit):
             with slot_lock:
                 slots.append(slot)
                 slots.sort()
+            MEM.release(w)
 
     with ThreadPoolExecutor(max_workers=jobs) as ex:
         for h, r2 in ex.map(worker2, batch):
